@@ -74,7 +74,30 @@ def _load_event(lines):
     return {}
 
 
-def issues_from_validation(ctx, res, label):
+LSAN_PERIOD = 8
+
+
+def _attribute_leak(ctx, rerun, case, window, label):
+    """the LeakSanitizer probe runs only every `window` inputs in the fast
+    pass; re-run the window with a probe after every input to find the input
+    that leaks (a leak that does not show again is not reported)"""
+    parts = case.split(":")
+    hi = int(parts[2]) + 1
+    lo = max(0, hi - window)
+    tp = os.path.join(ctx.work, "leakwin-%s-%d.ndjson" % (parts[0], hi))
+    open(tp, "w").close()
+    env = dict(_env(ctx), CF_LSAN_PERIOD="1")
+    crashes = common.run_cases(rerun["exe"], rerun["mkargs"], lo, hi, tp,
+                               _case_index, max_crashes=window + 2, env=env)
+    common.strip_crashed_episodes(tp)
+    res = vlib.validate_sharded(TRACE[0], TRACE[1], tp, ctx.work, shards=1)
+    ctx.machinery_errors += res["errors"]
+    out = issues_from_crashes(ctx, crashes, label)
+    out += issues_from_validation(ctx, res, label + " (leak window re-run)")
+    return out
+
+
+def issues_from_validation(ctx, res, label, rerun=None):
     issues = []
     for f in res["failures"]:
         idx, evname, field = common.parse_mismatch(f["mismatch"])
@@ -82,6 +105,14 @@ def issues_from_validation(ctx, res, label):
         m = common.CASE_RE.search(f["lines"][0])
         case = m.group(1) if m else "?"
         par = parser_of(ld.get("kind"))
+        if field == "leak" and rerun is not None:
+            try:
+                endev = json.loads(f["event"])
+            except ValueError:
+                endev = {}
+            if endev.get("window", 1) > 1:
+                issues += _attribute_leak(ctx, rerun, case, endev["window"], label)
+                continue
         if evname == "End" or (f["event"] or "").startswith('{"e":"End"'):
             sig = "LoadContract:%s:End:%s:ok%s" % (par, field, ld.get("ok"))
             props = {"C03", "C09"}
@@ -202,7 +233,9 @@ def _run_mode(ctx, exe, label, name, mkargs, total, stats, issues, nshards=None,
               timeout=1800):
     paths, crashes = common.run_sharded(exe, mkargs, total, ctx.work, name,
                                         _case_index, nshards=nshards,
-                                        timeout=timeout, env=_env(ctx))
+                                        timeout=timeout,
+                                        env=dict(_env(ctx),
+                                                 CF_LSAN_PERIOD=str(LSAN_PERIOD)))
     issues += issues_from_crashes(ctx, crashes, label)
     stats["crashes"] += len([c for c in crashes if c["rc"] not in QUIET_RC
                              and not (c["rc"] == 3 and "live-block set full" in c["stderr"])])
@@ -216,7 +249,8 @@ def _run_mode(ctx, exe, label, name, mkargs, total, stats, issues, nshards=None,
     res = vlib.validate_sharded(TRACE[0], TRACE[1], tr, ctx.work,
                                 shards=vlib.NCPU)
     ctx.machinery_errors += res["errors"]
-    issues += issues_from_validation(ctx, res, label)
+    issues += issues_from_validation(ctx, res, label,
+                                     rerun={"exe": exe, "mkargs": mkargs})
     issues += _seed_issues(tr)
     stats["events"] += res["events"]
     stats["episodes"] += res["episodes"]
